@@ -27,7 +27,10 @@ EVENTS = ["changed", "moved", "created", "removed", "validate"]
 # registration site (enclosing function) -> (required events, must be filtered?, reason)
 REQUIRED = {
     "rope.base.pycore.PyCore._init_resource_observer":
-        ({"changed", "moved", "removed"}, True, "module cache: a changed/moved/removed module must drop its PyModule; Filtered wrapper supplies validate"),
+        ({"changed", "moved", "removed", "created", "validate"}, True,
+         "module cache: a changed/moved/removed module must drop its PyModule (per cached file, through the Filtered wrapper); a CREATED module or "
+         "package -- through rope or found by validate() -- can make an import resolvable that was not, and no cached module reports that, so "
+         "concluded data must be dropped on created/validate too"),
     "rope.base.pycore.PyCore._init_automatic_soa":
         ({"changed"}, False, "automatic static object analysis re-runs on changed files"),
     "rope.base.project._FileListCacher.__init__":
@@ -140,6 +143,7 @@ def check(ctx, res) -> None:
     ro_params = param_names(ro.methods["__init__"].node)[1:]
     seen = set()
     for f in sorted(idx.functions.values(), key=lambda f: f.qualname):
+        regs = []  # (call, events, filtered, registered)
         for c in calls_in(f.node):
             if idx.resolve(f.unit.modname, c.func) != ro.qualname:
                 continue
@@ -150,8 +154,6 @@ def check(ctx, res) -> None:
             for k in c.keywords:
                 passed[k.arg] = k.value
             events = {e for e in EVENTS if e in passed and not (isinstance(passed[e], ast.Constant) and passed[e].value is None)}
-            site = f.qualname
-            seen.add(site)
             # wrapped / registered?
             var = None
             for n in walk_local(f.node):
@@ -169,19 +171,29 @@ def check(ctx, res) -> None:
                     a = c2.args[0]
                     if (isinstance(a, ast.Name) and a.id in wrapped_names) or norm(a) in wrapped_names:
                         registered = True
-            if site not in REQUIRED:
-                res.undecided("R13.2", site.split(".", 2)[-1], f"{f.unit.rel}:{c.lineno}",
-                              f"observer registration not in the table (events={sorted(events)})")
-                continue
-            need, must_filter, reason = REQUIRED[site]
-            missing = need - events
-            ok = not missing and registered and (filtered or not must_filter)
-            res.add("R13.2", site.split(".", 2)[-1], ok, f"{f.unit.rel}:{c.lineno}",
-                    f"registers {sorted(events)} ⊇ required {sorted(need)} ({reason})" if ok else
-                    f"{site}: " + (f"no handler for {sorted(missing)} events; " if missing else "")
-                    + ("observer is never added to the project; " if not registered else "")
-                    + ("not wrapped in FilteredResourceObserver (validate/folder events do not reach it); " if must_filter and not filtered else "")
-                    + f"needed because: {reason}", events=sorted(events))
+            regs.append((c, events, filtered, registered))
+        if not regs:
+            continue
+        site = f.qualname
+        seen.add(site)
+        c0 = regs[0][0]
+        events = set().union(*[e for _, e, _, r in regs if r])
+        if site not in REQUIRED:
+            res.undecided("R13.2", site.split(".", 2)[-1], f"{f.unit.rel}:{c0.lineno}",
+                          f"observer registration not in the table (events={sorted(events)})")
+            continue
+        need, must_filter, reason = REQUIRED[site]
+        missing = need - events
+        unregistered = [c for c, _, _, r in regs if not r]
+        per_file = {"changed", "moved", "removed"} & need
+        filtered_ok = not must_filter or any(fl and r and per_file <= e for _, e, fl, r in regs)
+        ok = not missing and not unregistered and filtered_ok
+        res.add("R13.2", site.split(".", 2)[-1], ok, f"{f.unit.rel}:{c0.lineno}",
+                f"registers {sorted(events)} ⊇ required {sorted(need)} ({reason})" if ok else
+                f"{site}: " + (f"no handler for {sorted(missing)} events; " if missing else "")
+                + ("an observer is never added to the project; " if unregistered else "")
+                + ("the per-file handlers are not wrapped in FilteredResourceObserver (validate/folder events do not reach them); " if not filtered_ok else "")
+                + f"needed because: {reason}", events=sorted(events))
     gone = set(REQUIRED) - seen
     if gone:
         raise AnalysisError(f"anchor=observer registration site(s) vanished: {sorted(gone)}")
